@@ -65,9 +65,9 @@ def make_case(cid, rng, schema, root, n_ops, every):
         full.append(op)
         marks.append(m)
         if every and (i % every == every - 1):
-            full.append({"op": "reopen", "dir": d})
+            full.append({"op": "reopen", "dir": d, "verify": True})
             marks.append({"kind": "reopen"})
-    full.append({"op": "reopen", "dir": d})
+    full.append({"op": "reopen", "dir": d, "verify": True})
     marks.append({"kind": "reopen"})
     full.append({"op": "exists", "dir": d})
     marks.append({"kind": "exists"})
@@ -75,7 +75,7 @@ def make_case(cid, rng, schema, root, n_ops, every):
     marks.append(None)
     # create_or_load over the existing library, asking for a different version
     other = "2.21.2" if not schema.startswith("2.21.2") else "1.6.0"
-    full.append({"op": "create_or_load", "schema": other, "dir": d})
+    full.append({"op": "create_or_load", "schema": other, "dir": d + ("/" if rng.random() < 0.5 else "")})
     marks.append({"kind": "create_or_load_existing"})
     full.append({"op": "observe_all", "snapshots": False})
     marks.append({"kind": "observe_after_col"})
